@@ -200,5 +200,6 @@ theorem getPriority_eq {Q : Type} (w : World Q) (h : Nat) :
     | step t => by_cases hp : w.tasks[t]!.prioKind <;> simp [hp]
     | cb k => rfl
     | reins t q => rfl
+    | bound t k => rfl
 
 end Asynkit.GenEqSched
